@@ -56,6 +56,13 @@ def day_frac(val1, val2, factor=None, divisor=None):
     # and the second is the error of the float64 sum.
     sum12, err12 = two_sum(val1, val2)
 
+    # The exact products below need double precision (a float16 factor would
+    # overflow in the splitting done by two_product).
+    if factor is not None:
+        factor = np.asanyarray(factor, dtype=np.float64)[()]
+    if divisor is not None:
+        divisor = np.asanyarray(divisor, dtype=np.float64)[()]
+
     if factor is not None:
         sum12, carry = two_product(sum12, factor)
         carry += err12 * factor
